@@ -67,6 +67,11 @@ Observed(e, s) == s.ie = Bits(e[6]) /\ s.iflg = Bits(e[7])
 
 SameRegsExceptPcSp(e) == [Post(e) EXCEPT !.pc = 0, !.sp = 0] = [Pre(e) EXCEPT !.pc = 0, !.sp = 0]
 
+PushEffect(s, W) ==
+   LET ieW == {w \in W : w[1] = 65535}  ifW == {w \in W : w[1] = 65295}
+       s1 == IF ieW = {} THEN s ELSE [s EXCEPT !.ie = Bits((CHOOSE w \in ieW : TRUE)[2])]
+   IN IF ifW = {} THEN s1 ELSE [s1 EXCEPT !.iflg = Bits((CHOOSE w \in ifW : TRUE)[2])]
+
 DispatchStep(e, s0) ==
    LET n == DispatchCycles(s0)
        sAll == [s0 EXCEPT !.iflg = @ \cup RaisedUpTo(e, n)]
@@ -77,7 +82,9 @@ DispatchStep(e, s0) ==
    IN /\ N(e) = n                                                  \* 5 cycles, 6 out of HALT
       /\ \E b \in cand :
            /\ Post(e).pc = Vector(b)
-           /\ st' = AfterDispatch(sAll, b)                         \* IME cleared, exactly that IF bit cleared
+           \* IME cleared, exactly that IF bit cleared - and then the two pushes, should the stack pointer make them land
+           \* on IE (FFFF) or IF (FF0F): the interrupt was chosen before they happen
+           /\ st' = PushEffect(AfterDispatch(sAll, b), W)
       /\ Post(e).sp = W16(pre.sp + 65534)
       /\ W = {<<W16(pre.sp + 65535), Hi(pre.pc)>>, <<W16(pre.sp + 65534), Lo(pre.pc)>>}   \* pushes the address of the next instruction
       /\ SameRegsExceptPcSp(e)
